@@ -212,6 +212,30 @@ func (c *c15) Run(cs core.Case) core.Result {
 		pk := append([]par2rw.Packet{rs.MainPacket()}, critical()[1:]...)
 		pk = append(pk, rs.CreatorPacket("ref"))
 		pk = append(pk, uniPackets...)
+		if !useUni && !dupDesc && p.Seed%5 == 3 && len(rs.Files) >= 2 {
+			// Another layout: a main packet that lists only the harmless files
+			// comes first (same set ID field, so it is not the set's real main
+			// packet), then the hostile description, then the real main packet.
+			decoy := par2rw.Main{SliceSize: rs.Main.SliceSize}
+			var evilDesc par2rw.Packet
+			var rest []par2rw.Packet
+			for i, rf := range rs.Files {
+				if rf.Name == name {
+					evilDesc = rs.DescPacket(i)
+					continue
+				}
+				decoy.IDs = append(decoy.IDs, rf.ID)
+			}
+			decoy.NRecovery = uint32(len(decoy.IDs))
+			for _, q := range pk {
+				if q.Type == par2rw.TypeFileDesc && string(q.Body) == string(evilDesc.Body) {
+					continue
+				}
+				rest = append(rest, q)
+			}
+			pk = append([]par2rw.Packet{rs.CreatorPacket("ref"), {SetID: rs.SetID, Type: par2rw.TypeMain, Body: decoy.Body()}, evilDesc}, rest...)
+			r.Count("archives_with_decoy_main_packet", 1)
+		}
 		os.WriteFile(idx, par2rw.Serialize(pk), 0644)
 		nb := (len(evilData)+15)/16 + 1
 		if len(evilData) == 0 {
